@@ -194,6 +194,26 @@ def ob_memo_names(w, P):
     w.clock_fn = lambda: 1000.0
     x = int(w.int('x', 0, 2))
     pairs = [(deco(Circle.area), deco(Square.area), 'circle', 'square'), (deco(outer1()), deco(outer2()), 'h1', 'h2')]
+    if variant == 'cache':
+        # ONE decorator object (one memoize() call without a name) applied to two functions
+        def double(x):
+            calls.append('double')
+            return ('double', x)
+
+        def square(x):
+            calls.append('sq')
+            return ('sq', x)
+        for owner in ('cache', 'fanout', 'index'):
+            if owner == 'cache':
+                d_ = L.core.Cache.memoize(mc)
+            elif owner == 'fanout':
+                d_ = L.fanout.FanoutCache.memoize(mc)
+            else:
+                ix_ = L.persistent.Index.__new__(L.persistent.Index)
+                mc.memoize = lambda name=None, typed=False, expire=None, tag=None, ignore=(): L.core.Cache.memoize(mc, name, typed, expire, tag, ignore)
+                ix_._cache = mc
+                d_ = ix_.memoize()
+            pairs.append((d_(double), d_(square), 'double', 'sq'))
     for f1, f2, n1, n2 in pairs:
         r1 = f1(x)
         r2 = f2(x)
@@ -203,6 +223,50 @@ def ob_memo_names(w, P):
     return cl
 
 
+def ob_memo_aux_keys(w, P):
+    """memoize_stampede keeps an auxiliary entry (the "recomputation started" marker) next to the result: while that entry
+    is live, every OTHER call signature -- in particular the ones whose key extends the first call's key by None values --
+    still runs the function and gets its own result"""
+    L = w.L
+    rec = L.recipes
+    mc = MemoCache(w, L)
+    calls = []
+    clock = [1000]
+    w.clock_fn = lambda: float(clock[0])
+
+    def func(*args, **kwargs):
+        calls.append((args, tuple(sorted(kwargs.items()))))
+        clock[0] += 5  # the function takes time: the marker lives for that long
+        return ('r', args, tuple(sorted(kwargs.items())))
+
+    class T:
+        def __init__(self, target=None):
+            self.target, self.daemon = target, False
+
+        def start(self):
+            pass  # the recomputation thread has not run yet: the marker stays
+    rec.threading = type('X', (), {'Thread': T, 'get_ident': staticmethod(lambda: w.tid)})
+    rec.random = type('X', (), {'random': staticmethod(lambda: 0.5)})
+    rec.math = type('X', (), {'log': staticmethod(lambda x: -10 ** 12)})  # the early-recomputation test always fires
+    typed = bool(w.bool('typed'))
+    f = rec.memoize_stampede(mc, 100, name='f', typed=typed)(func)
+    pool = [0, None, 'a', 1.0]
+    x = pool[int(w.int('x_i', 0, len(pool) - 1))]
+    cl = []
+    r1 = f(x)
+    r2 = f(x)  # hit + early recomputation: the marker entry is added
+    cl.append(('C16', 'both calls return the result of f(x)', r1 == ('r', (x,), ()) and r2 == ('r', (x,), ())))
+    cl.append(('C16', 'an auxiliary entry was written next to the result', len(mc.d) >= 2))
+    flag('marker_live') if len(mc.d) >= 2 else None
+    others = [((x, None), {}), ((x, None, None), {}), ((x,), {'k': None}), ((None, x), {}), ((x, None), {'k': None})]
+    i = int(w.int('other_i', 0, len(others) - 1))
+    a, k = others[i]
+    n0 = len(calls)
+    r3 = f(*a, **k)
+    cl.append(('C16', 'another call signature runs the function and gets its own result while the marker is live', r3 == ('r', a, tuple(sorted(k.items()))) and len(calls) == n0 + 1))
+    flag('nontrivial')
+    return cl
+
 def jobs(tier):
     out = []
     F = {'cache': ['core.Cache.memoize', 'core.args_to_key'], 'fanout': ['core.Cache.memoize'], 'index': ['persistent.Index.memoize', 'core.Cache.memoize'],
@@ -211,5 +275,6 @@ def jobs(tier):
         out.append(dict(id='memo.%s' % v, func='ob_memo', params=dict(variant=v), tags=['C16'], functions=F[v], weight=5, twin=False))
     for v in ('cache', 'django', 'stampede'):
         out.append(dict(id='memo.names.%s' % v, func='ob_memo_names', params=dict(variant=v), tags=['C16'], functions=['core.full_name'] + F[v], weight=3, twin=False))
+    out.append(dict(id='memo.stampede.aux_keys', func='ob_memo_aux_keys', params={}, tags=['C16'], functions=F['stampede'], weight=5, twin=False, must_reach=['marker_live']))
     out.append(dict(id='memo.stampede.nothread', func='ob_memo', params=dict(variant='stampede', run_thread=False), tags=['C16'], functions=F['stampede'], weight=5, twin=False))
     return out
